@@ -22,9 +22,9 @@
 static char cls[MAXFD][12];
 static int inited = 0;
 static int logfd = -1;
-static char f_cls[12], f_sys[12];
-static long f_k = -1, f_arg = 0;
-static int f_kind = 0, f_fired = 0;
+struct pfault { char cls[12], sys[12]; long k, arg; int kind, fired; };
+static struct pfault pf[2] = {{"", "", -1, 0, 0, 0}, {"", "", -1, 0, 0, 0}};
+static int f_kind = 0; static long f_arg = 0; static int f_fired = 0;   /* the fault that matched last */
 struct counter { char cls[12]; char sys[12]; long n; };
 static struct counter counters[64];
 static int ncounters = 0;
@@ -86,14 +86,15 @@ static void init(void) {
     }
     if(getenv("ZCKV_STDOUT")) strcpy(cls[1], "stdout");
     if(getenv("ZCKV_STDIN")) strcpy(cls[0], "stdin");
-    const char *f = getenv("ZCKV_FAULT");
-    if(f) {
+    for(int i = 0; i < 2; i++) {
+        const char *f = getenv(i ? "ZCKV_FAULT2" : "ZCKV_FAULT");
+        if(!f) continue;
         char tmp[128];
         strncpy(tmp, f, sizeof(tmp) - 1); tmp[sizeof(tmp) - 1] = 0;
         char *p1 = strtok(tmp, ":"), *p2 = strtok(NULL, ":"), *p3 = strtok(NULL, ":"), *p4 = strtok(NULL, ":"), *p5 = strtok(NULL, ":");
         if(p1 && p2 && p3 && p4) {
-            strncpy(f_cls, p1, 11); strncpy(f_sys, p2, 11);
-            f_k = atol(p3); f_kind = atoi(p4); f_arg = p5 ? atol(p5) : 0;
+            strncpy(pf[i].cls, p1, 11); strncpy(pf[i].sys, p2, 11);
+            pf[i].k = atol(p3); pf[i].kind = atoi(p4); pf[i].arg = p5 ? atol(p5) : 0;
         }
     }
     atexit(dump);
@@ -122,9 +123,13 @@ static long count(const char *c, const char *sys) {
 }
 
 static int hit(const char *c, const char *sys, long k) {
-    if(f_fired || f_k != k || strcmp(f_cls, c) || strcmp(f_sys, sys)) return 0;
-    f_fired = 1;
-    return 1;
+    for(int i = 0; i < 2; i++) {
+        if(pf[i].fired || pf[i].k != k || strcmp(pf[i].cls, c) || strcmp(pf[i].sys, sys)) continue;
+        pf[i].fired = 1;
+        f_kind = pf[i].kind; f_arg = pf[i].arg; f_fired++;
+        return 1;
+    }
+    return 0;
 }
 
 static int ferrno(int kind) { return kind == 2 ? ENOSPC : (kind == 3 ? EINTR : EIO); }
